@@ -382,7 +382,13 @@ class Tr:
             return txt
         if sp.mode == 'res':
             return '(Ok %s)' % txt
-        return '(Ok (%s, %s))' % (sp.state[0], txt)
+        return '(SOk %s %s)' % (sp.state[0], txt)
+
+    def err_val(self, kind):
+        sp = self.spec
+        if sp.mode == 'state':
+            return '(SErr %s %s)' % (sp.state[0], kind)
+        return '(Err %s)' % kind
 
     def block(self, stmts, k):
         """k: function () -> text of what follows when control falls off the end"""
@@ -412,12 +418,12 @@ class Tr:
             nm = dotted(e.func) if isinstance(e, ast.Call) else dotted(e)
             if nm not in ERR_KINDS:
                 raise TErr('exception kind %s' % nm)
-            return '(Err %s)' % nm
+            return self.err_val(nm)
         if isinstance(st, ast.Assert):
             if sp.mode == 'pure':
                 raise TErr('assert in a pure function')
             c = self.truthy(*self.ex(st.test))
-            return '(if %s then %s else Err AssertionError)' % (c, cont())
+            return '(if %s then %s else %s)' % (c, cont(), self.err_val('AssertionError'))
         if isinstance(st, ast.AugAssign):
             d = dotted(st.target)
             if d in sp.inplace:
@@ -648,7 +654,7 @@ class Tr:
         if isinstance(call, ast.Subscript):
             at, getter, _ = sp.attrs[dotted(call.value)]
             r = self.fresh('r')
-            return '(bind (lget0 %s) (fun %s =>\n %s))' % (getter.format(s=sp.state[0]), r, k(r, at[1]))
+            return '(bindr (lget0 %s) %s (fun %s =>\n %s))' % (getter.format(s=sp.state[0]), sp.state[0], r, k(r, at[1]))
         if isinstance(call, ast.Call) and isinstance(call.func, ast.Attribute) and call.func.attr == 'pop' \
                 and dotted(call.func.value) in sp.attrs and dotted(call.func) not in sp.calls:
             at, getter, setter = sp.attrs[dotted(call.func.value)]
@@ -660,8 +666,8 @@ class Tr:
                 raise TErr('pop with argument ' + ast.unparse(call))
             r, l = self.fresh('r'), self.fresh('l')
             s_ = sp.state[0]
-            return "(bind (%s %s) (fun '(%s, %s) =>\n (let %s := %s in\n %s)))" % (
-                fn, getter.format(s=s_), l, r, s_, setter.format(s=s_, v=l), k(r, at[1]))
+            return "(bindr (%s %s) %s (fun '(%s, %s) =>\n (let %s := %s in\n %s)))" % (
+                fn, getter.format(s=s_), s_, l, r, s_, setter.format(s=s_, v=l), k(r, at[1]))
         if isinstance(call, ast.Attribute):
             c = sp.eattrs[dotted(call)]
             d = dotted(call)
@@ -714,6 +720,8 @@ class Tr:
         r = self.fresh('r')
         if c['kind'] == 'res':
             body = k(r, c['ret'])
+            if sp.mode == 'state':
+                return '(bindr (%s) %s (fun %s =>\n %s))' % (' '.join([c['fn']] + c.get('pre', []) + args), sp.state[0], r, body)
             return '(bind (%s) (fun %s =>\n %s))' % (' '.join([c['fn']] + c.get('pre', []) + args), r, body)
         if c['kind'] == 'prim':
             if sp.mode != 'state':
@@ -721,7 +729,7 @@ class Tr:
             s = sp.state[0]
             head = ' '.join([c['fn']] + c.get('pre', []) + [s] + args)
             body = k(r, c['ret'])
-            return "(bind (%s) (fun '(%s, %s) =>\n %s))" % (head, s, r, body)
+            return "(sbind (%s) (fun %s %s =>\n %s))" % (head, s, r, body)
         raise TErr('call kind')
 
     # loops: accumulators are the local names assigned in the body that exist before the loop
@@ -785,8 +793,8 @@ class Tr:
         if sp.mode == 'res':
             loop = "(foldM (fun '(%s) %s => %s) %s %s)" % (acc_pat, st.target.id, body, seq, acc_tuple)
             return "(bind %s (fun '(%s) =>\n %s))" % (loop, acc_pat, cont())
-        loop = "(foldM (fun '(%s, (%s)) %s => %s) %s (%s, %s))" % (s, acc_pat, st.target.id, body, seq, s, acc_tuple)
-        return "(bind %s (fun '(%s, (%s)) =>\n %s))" % (loop, s, acc_pat, cont())
+        loop = "(sfoldM (fun %s '(%s) %s => %s) %s %s %s)" % (s, acc_pat, st.target.id, body, seq, s, acc_tuple)
+        return "(sbind %s (fun %s '(%s) =>\n %s))" % (loop, s, acc_pat, cont())
 
     def _loop_ret(self, accs):
         sp = self.spec
@@ -794,7 +802,7 @@ class Tr:
             return accs
         if sp.mode == 'res':
             return '(Ok %s)' % accs
-        return '(Ok (%s, %s))' % (sp.state[0], accs)
+        return '(SOk %s %s)' % (sp.state[0], accs)
 
     def while_loop(self, st, cont):
         sp = self.spec
@@ -841,7 +849,7 @@ class Tr:
             if sp.mode == 'res':
                 rt = 'result %s' % rt
             elif sp.mode == 'state':
-                rt = 'result (%s * %s)' % (sp.state[1], rt)
+                rt = 'sres %s %s' % (sp.state[1], rt)
             ann = ' : ' + rt
         return 'Definition %s %s%s%s :=\n %s.\n' % (sp.name, pre, ' '.join(binders), ann, body)
 
